@@ -68,6 +68,11 @@ def _replies(proposed, tslist):
                 if tsi == 0:
                     free = next(i for i in range(1, 256, 2) if i not in [p[0] for p in proposed])
                     yield 'r%s-extra' % ''.join(map(str, results)), rep + [(free, 0, tss[0])]
+                    # ... or refused: an answer to a context that was never proposed, with each refusal result, in front or behind
+                    for rr in (1, 2, 3, 4):
+                        if sum(results) % 4 == rr - 1:
+                            yield 'r%s-x%d-extra' % (''.join(map(str, results)), rr), \
+                                (rep + [(free, rr, tss[0])]) if rr % 2 else ([(free, rr, tss[0])] + rep)
     else:
         ts = tslist[0]
         ids = [p[0] for p in proposed]
